@@ -54,7 +54,7 @@ theorem stableF_keep {cfg : Cfg} {s s' : State} (p : Pres s s') (n : Nest s s') 
     · rw [n.wlist, e3]; exact hw
 
 section link
-variable {cfg : Cfg} {A0 : A} {s0 : State} (hs0 : Sim cfg A0 s0)
+variable {cfg : Cfg} {A0 : A} {s0 : State} (hs0 : SimM cfg A0 s0)
 include hs0
 
 /-- the table entry of a module the Spec considers alive -/
@@ -92,7 +92,7 @@ include ok hfuel hperm
 
 /-- **the counted clause of `Spec.checkData`** on the events of a data frame: DEBUG log line, forward, then nested
     activity only -/
-theorem data_c5 {A0 : A} {s0 : State} (hs0 : Sim cfg A0 s0) (t0 : Top cfg s0) (h : Hdr) (fr : Frame)
+theorem data_c5 {A0 : A} {s0 : State} (hs0 : SimM cfg A0 s0) (t0 : Top cfg s0) (h : Hdr) (fr : Frame)
     (hft : fr.mtype = h.mtype) (hfs : fr.src = h.src) (hfd : fr.dest = h.dest) (hfh : fr.destHost = h.destHost)
     (s2 : State) (evs : List Ev) (he : s2.out = s0.out ++ evs)
     (n2 : Nest (fwdTop cfg (logAt cfg (fwdTop cfg) 10 s0) fr) s2)
